@@ -27,16 +27,30 @@ pub fn gen_key(version: KeyVersion, kt: KeyType, seed: u64) -> SignedSecretKey {
 
 /// A key whose "signature" over a digest is the digest itself and whose
 /// verification succeeds iff the presented signature equals the digest it is
-/// asked to check. Every digest seen is logged.
+/// asked to check. Every digest seen is logged. It carries the identity
+/// (version, fingerprint, algorithm, parameters, serialisation) of a real
+/// primary key or subkey.
+#[derive(Debug)]
+pub enum KeyKind {
+    Primary(PublicKey),
+    Sub(pgp::packet::PublicSubkey),
+}
+
 #[derive(Debug)]
 pub struct RecKey {
-    pub inner: PublicKey,
+    pub inner: KeyKind,
     pub log: RefCell<Vec<Vec<u8>>>,
 }
 
 impl RecKey {
     pub fn new(inner: PublicKey) -> Self {
-        RecKey { inner, log: RefCell::new(Vec::new()) }
+        RecKey { inner: KeyKind::Primary(inner), log: RefCell::new(Vec::new()) }
+    }
+    pub fn new_sub(sub: pgp::packet::PublicSubkey) -> Self {
+        RecKey { inner: KeyKind::Sub(sub), log: RefCell::new(Vec::new()) }
+    }
+    pub fn sign_raw(&self, digest: &[u8]) -> Option<SignatureBytes> {
+        Some(encode(self.algorithm(), digest))
     }
     pub fn last(&self) -> Option<Vec<u8>> {
         self.log.borrow().last().cloned()
@@ -46,28 +60,20 @@ impl RecKey {
     }
 }
 
+macro_rules! delegate {
+    ($self:ident, $m:ident) => {
+        match &$self.inner { KeyKind::Primary(k) => k.$m(), KeyKind::Sub(k) => k.$m() }
+    };
+}
+
 impl KeyDetails for RecKey {
-    fn version(&self) -> KeyVersion {
-        self.inner.version()
-    }
-    fn legacy_key_id(&self) -> KeyId {
-        self.inner.legacy_key_id()
-    }
-    fn fingerprint(&self) -> Fingerprint {
-        self.inner.fingerprint()
-    }
-    fn algorithm(&self) -> PublicKeyAlgorithm {
-        self.inner.algorithm()
-    }
-    fn created_at(&self) -> Timestamp {
-        self.inner.created_at()
-    }
-    fn legacy_v3_expiration_days(&self) -> Option<u16> {
-        self.inner.legacy_v3_expiration_days()
-    }
-    fn public_params(&self) -> &PublicParams {
-        self.inner.public_params()
-    }
+    fn version(&self) -> KeyVersion { delegate!(self, version) }
+    fn legacy_key_id(&self) -> KeyId { delegate!(self, legacy_key_id) }
+    fn fingerprint(&self) -> Fingerprint { delegate!(self, fingerprint) }
+    fn algorithm(&self) -> PublicKeyAlgorithm { delegate!(self, algorithm) }
+    fn created_at(&self) -> Timestamp { delegate!(self, created_at) }
+    fn legacy_v3_expiration_days(&self) -> Option<u16> { delegate!(self, legacy_v3_expiration_days) }
+    fn public_params(&self) -> &PublicParams { delegate!(self, public_params) }
 }
 
 /// shape of a parseable signature value per algorithm
@@ -106,7 +112,7 @@ fn encode(alg: PublicKeyAlgorithm, data: &[u8]) -> SignatureBytes {
 impl SigningKey for RecKey {
     fn sign(&self, _pw: &Password, _hash: HashAlgorithm, data: &[u8]) -> pgp::errors::Result<SignatureBytes> {
         self.log.borrow_mut().push(data.to_vec());
-        Ok(encode(self.inner.algorithm(), data))
+        Ok(encode(self.algorithm(), data))
     }
     fn hash_alg(&self) -> HashAlgorithm {
         HashAlgorithm::Sha256
@@ -116,7 +122,7 @@ impl SigningKey for RecKey {
 impl VerifyingKey for RecKey {
     fn verify(&self, _hash: HashAlgorithm, data: &[u8], sig: &SignatureBytes) -> pgp::errors::Result<()> {
         self.log.borrow_mut().push(data.to_vec());
-        let want = encode(self.inner.algorithm(), data);
+        let want = encode(self.algorithm(), data);
         let same = match (sig, &want) {
             (SignatureBytes::Native(a), SignatureBytes::Native(b)) => a == b,
             (SignatureBytes::Mpis(a), SignatureBytes::Mpis(b)) => {
@@ -130,4 +136,33 @@ impl VerifyingKey for RecKey {
             Err(pgp::errors::Error::from(std::io::Error::other("recording key: digest mismatch")))
         }
     }
+}
+
+impl pgp::ser::Serialize for RecKey {
+    fn to_writer<W: std::io::Write>(&self, w: &mut W) -> pgp::errors::Result<()> {
+        match &self.inner { KeyKind::Primary(k) => k.to_writer(w), KeyKind::Sub(k) => k.to_writer(w) }
+    }
+    fn write_len(&self) -> usize {
+        match &self.inner { KeyKind::Primary(k) => k.write_len(), KeyKind::Sub(k) => k.write_len() }
+    }
+}
+
+/// key with one encryption subkey (v4: Ed25519Legacy + ECDH Curve25519; v6: Ed25519 + X25519)
+pub fn gen_key_with_subkey(version: KeyVersion, seed: u64) -> SignedSecretKey {
+    use pgp::composed::{EncryptionCaps, SubkeyParamsBuilder};
+    use pgp::crypto::ecc_curve::ECCCurve;
+    let (pk, sk) = match version {
+        KeyVersion::V6 => (KeyType::Ed25519, KeyType::X25519),
+        _ => (KeyType::Ed25519Legacy, KeyType::ECDH(ECCCurve::Curve25519Legacy)),
+    };
+    let mut sub = SubkeyParamsBuilder::default();
+    sub.version(version).key_type(sk).can_encrypt(EncryptionCaps::All);
+    let mut p = SecretKeyParamsBuilder::default();
+    p.version(version)
+        .key_type(pk)
+        .can_certify(true)
+        .can_sign(true)
+        .primary_user_id("verif <verif@example.org>".into())
+        .subkeys(vec![sub.build().expect("subkey params")]);
+    p.build().expect("key params").generate(Rng::new(seed)).expect("keygen")
 }
